@@ -93,6 +93,7 @@ type c16L1State struct {
 
 type c16L1Sys struct {
 	rich   bool // root: two bridges, each with deposits, a final output, a paid withdrawal, a batch-info change
+	empty  bool // root: a chain on which no bridge has been created yet
 	tree   *wtree
 	tree2  *wtree
 	blank  map[*world.L1]*world.L1
@@ -113,6 +114,9 @@ func (y *c16L1Sys) Root() *c16L1State {
 		"proposer": nil, "challenger": nil, "stranger": nil, "creator": sdk.NewCoins(world.Coin("uxx", 10)), "submitter": nil, "proposer2": nil, "challenger2": nil, "bob": nil,
 		"alice": sdk.NewCoins(world.Coin("uxx", 100), world.Coin("uyy", 100)),
 	}})
+	if y.empty {
+		return &c16L1State{ctx: w.Ctx, w: w, nbr: 0}
+	}
 	if r := w.Deliver(w.Ctx, ophosttypes.NewMsgCreateBridge(world.Addr("creator").String(), world.BridgeConfig("proposer", "challenger", 10*time.Second))); !r.OK() {
 		panic(r.Err)
 	}
@@ -341,6 +345,9 @@ func (y *c16L1Sys) Check(s *c16L1State) (v *engine.Violation) {
 	// the imported module store holds every record of the original, byte for byte; the only keys it may
 	// add are per-bridge counters that the original left at their default (import writes them out)
 	if d := storeDiff(s.ctx, s.w.StoreKeys[2], bctx, b.StoreKeys[2], func(k, v []byte) bool {
+		if bytes.Equal(k, ophosttypes.NextBridgeIdKey) {
+			return binary.BigEndian.Uint64(v) == ophosttypes.DefaultBridgeIdStart // the id counter of a chain without bridges
+		}
 		return len(k) == 9 && (k[0] == ophosttypes.NextL1SequencePrefix[0] || k[0] == ophosttypes.NextOutputIndexPrefix[0]) && binary.BigEndian.Uint64(v) == 1
 	}, nil); d != "" {
 		return tagged(viol("imported-store-equals-the-original", "module store after import differs from the original: %s", d), "chain", "l1")
@@ -758,6 +765,17 @@ func init() {
 				return res
 			}
 			res.Absorb("l1-rich-root", repr)
+			y1e := newC16L1Sys()
+			y1e.empty = true
+			oe := opts(rc, 2)
+			oe.Deadline = time.Now().Add(time.Until(rc.Deadline()) / 2)
+			repe, err := engine.Explore[*c16L1State](y1e, oe)
+			if err != nil {
+				res.HarnessErr = err
+				return res
+			}
+			res.Absorb("l1-no-bridge-yet", repe)
+			y1.clones.Add(y1e.clones.Load())
 			y1.clones.Add(y1r.clones.Load())
 			y1.probes.Add(y1r.probes.Load())
 			y2 := &c16L2Sys{blank: map[*world.L2]*world.L2{}}
@@ -768,7 +786,7 @@ func init() {
 			}
 			res.Absorb("l2", rep2)
 			res.Coverage["round_trips"] = map[string]any{"l1_clones": y1.clones.Load(), "l1_probe_steps_compared": y1.probes.Load(), "l2_clones": y2.clones.Load(), "l2_probe_steps_compared": y2.probes.Load()}
-			res.Coverage["alphabet"] = "L1 (from a one-bridge root and from a root with two bridges that each have deposits, a final output, a paid withdrawal and a batch-info change): CreateBridge, deposits into two bridges, Propose, Delete, Claim, UpdateBatchInfo (two values), UpdateMetadata, UpdateOracleConfig, UpdateProposer, UpdateChallenger, UpdateParams(fee), Advance; L2: credited and refunded deposits, withdrawal, AddValidator, RemoveValidator (bonded / fresh), UpdateParams, SetBridgeInfo, NextBlock"
+			res.Coverage["alphabet"] = "L1 (from a chain without any bridge, from a one-bridge root and from a root with two bridges that each have deposits, a final output, a paid withdrawal and a batch-info change): CreateBridge, deposits into two bridges, Propose, Delete, Claim, UpdateBatchInfo (two values), UpdateMetadata, UpdateOracleConfig, UpdateProposer, UpdateChallenger, UpdateParams(fee), Advance; L2: credited and refunded deposits, withdrawal, AddValidator, RemoveValidator (bonded / fresh), UpdateParams, SetBridgeInfo, NextBlock"
 			res.Coverage["oracle"] = "in every distinct state: export module + auth + bank genesis, ValidateGenesis passes, JSON round trip, import into a blank world, re-export byte-identical; the imported module store equals the original's key by key (L1: plus per-bridge counters written out at their default; L2: minus per-height history and the recorded L1 validator set); a fixed probe script (every message type incl. wrong signers, stale/next deposits, claims, deletes, two blocks; every query type) gives identical responses, errors, events, validator updates and final exports on original and clone; L2: InitGenesis's validator updates applied to an empty CometBFT set = bonded set"
 			res.Assumptions = []string{"host-validator snapshot, per-height history and the in-memory plan table are excluded by the property"}
 			res.Require(y1.clones.Load() > 50 && y2.clones.Load() > 50, "too few round trips")
@@ -777,6 +795,11 @@ func init() {
 		Replay: func(kind string, path []string) ([]string, *engine.Violation, error) {
 			if kind == "l2" {
 				return engine.Replay[*c16L2State](&c16L2Sys{blank: map[*world.L2]*world.L2{}}, path)
+			}
+			if kind == "l1-no-bridge-yet" {
+				y := newC16L1Sys()
+				y.empty = true
+				return engine.Replay[*c16L1State](y, path)
 			}
 			if kind == "l1-rich-root" {
 				y := newC16L1Sys()
